@@ -90,7 +90,8 @@ def commit (g : G) : G :=
       if o.suicided || (o.nonce = 0 && o.balance = 0 && o.code = 0) then { wiped with accts := AList.erase wiped.accts a }
       else
         let b1 := { wiped with accts := AList.set wiped.accts a (o.nonce, o.code, o.balance) }
-        o.storage.foldl (fun (acc : Base) kv => { acc with storage := AList.set acc.storage (a, kv.1) kv.2 }) b1) g.base
+        -- (the pairs are written last-to-first, so that the pair `AList.find?` would return for a key is the one that sticks)
+        o.storage.reverse.foldl (fun (acc : Base) kv => { acc with storage := AList.set acc.storage (a, kv.1) kv.2 }) b1) g.base
   { base := b, tx := {}, snaps := [], next := 0 }
 
 def renderBase (b : Base) (addrs keys : List Nat) : String :=
